@@ -37,6 +37,9 @@ var repoDir = report.RepoDir() + "/"
 const (
 	allocBase    = 64 << 20
 	allocPerByte = 64
+	// scale families (universe.go): inputs of hundreds of kilobytes
+	allocPerByteScale = 2048
+	scaleTimeBudget   = 4 * time.Second
 )
 
 func timeBudget() time.Duration {
@@ -167,9 +170,13 @@ const maxStackRecursive = 2 << 20
 
 var (
 	curStart atomic.Int64 // unix nanos of the running case, 0 if none
-	curIdx   atomic.Int64
-	curSeq   atomic.Int64
-	inStream atomic.Bool // the running case is an input of a retention stream
+	// curBudget: time budget of the running case in nanoseconds, 0 = the default. The
+	// scale families run under scaleTimeBudget: the unchanged parsers need 0.1-0.8 s for
+	// these inputs, a rescan per repetition 10 s and more
+	curBudget atomic.Int64
+	curIdx    atomic.Int64
+	curSeq    atomic.Int64
+	inStream  atomic.Bool // the running case is an input of a retention stream
 )
 
 // runStreamInput is the frame the watchdog looks for in a retention stream.
@@ -220,7 +227,11 @@ func watchdog(budget time.Duration) {
 	for {
 		time.Sleep(20 * time.Millisecond)
 		st := curStart.Load()
-		if st == 0 || time.Since(time.Unix(0, st)) <= budget {
+		b := budget
+		if cb := curBudget.Load(); cb > 0 && time.Duration(cb) < b {
+			b = time.Duration(cb)
+		}
+		if st == 0 || time.Since(time.Unix(0, st)) <= b {
 			continue
 		}
 		idx := curIdx.Load()
@@ -372,6 +383,11 @@ func workerMain() {
 			curSeq.Add(1)
 			resetPhase()
 			t0 := time.Now()
+			if strings.HasPrefix(g.label, "scale-") {
+				curBudget.Store(int64(scaleTimeBudget))
+			} else {
+				curBudget.Store(0)
+			}
 			curStart.Store(t0.UnixNano())
 			r := runCase(g.t, in)
 			ns := time.Since(t0).Nanoseconds()
@@ -394,7 +410,15 @@ func workerMain() {
 			default:
 				cls = outcomeClass(in, r.out)
 			}
-			if alloc > allocBase+allocPerByte*uint64(len(in)) {
+			perByte := uint64(allocPerByte)
+			if strings.HasPrefix(g.label, "scale-") {
+				// the parser combinators cost a few hundred bytes per byte of IDL text
+				// (measured: 260-410 B/byte, linear from 1 000 to 60 000 repetitions when measured without an address-space cap,
+				// twice for ParsePackage + ParseIDL); a rescan per repetition costs
+				// gigabytes at these sizes
+				perByte = allocPerByteScale
+			}
+			if alloc > allocBase+perByte*uint64(len(in)) {
 				var site string
 				site, prof = allocSite(prof, alloc, ms.Mallocs-m0)
 				fmt.Fprintf(w, "V %d alloc>budget %s %d %d allocated_%d_bytes_for_%d_input_bytes\n", i, site, alloc, ns, alloc, len(in))
